@@ -230,7 +230,8 @@ fn sweep(te: &Te, rt: &tokio::runtime::Runtime, model: &BTreeMap<u64, Vec<f32>>,
     let hot_ids: BTreeSet<u64> = te.engine.hot_tier().snapshot_doc_ids().into_iter().collect();
     let sc = SearchCheck { metric, model, hot_ids: &hot_ids };
     let mut queries = lattice(dim, 1.0);
-    if thorough {
+    // un-normalised queries: always under the Euclidean metric (nothing normalises them there)
+    if thorough || matches!(metric, DistanceMetric::Euclidean) {
         queries.extend(lattice(dim, 2.5));
     }
     let ks: &[usize] = if thorough { &[1, 2, 3, 1000] } else { &[1, 2, 1000] };
